@@ -67,6 +67,7 @@ std::string RunCfg::brief() const {
   if (operand2) r += " | data as second FILE operand";
   if (operand2 && op2_visible >= 0) { snprintf(b, sizeof b, " growing from %lld bytes at its read #%d", (long long)op2_visible, op2_grow_at); r += b; }
   if (nofile != 1024) { snprintf(b, sizeof b, " | nofile=%d", nofile); r += b; }
+  if (umask != 022) { snprintf(b, sizeof b, " | umask=%03o", umask); r += b; }
   if (inherit_mask) { snprintf(b, sizeof b, " | inherited blocked signals=0x%llx", (unsigned long long)inherit_mask); r += b; }
   if (sched.stall_k) { snprintf(b, sizeof b, " | stall %s#%u for %u decisions", sched.stall_task.c_str(), sched.stall_k, sched.stall_len); r += b; }
   if (in_granul || out_granul || copy_granul) { snprintf(b, sizeof b, " | granul in=%zu out=%zu copy=%zu", in_granul, out_granul, copy_granul); r += b; }
@@ -116,7 +117,7 @@ sim::Result exec(const RunCfg &cfg0, const Bytes &stdin_data0, const std::vector
   sim::Plan p;
   p.argv.push_back(cfg.prog);
   for (auto &a : cfg.argv) p.argv.push_back(a);
-  p.nofile = cfg.nofile; p.inherit_mask = cfg.inherit_mask;
+  p.nofile = cfg.nofile; p.inherit_mask = cfg.inherit_mask; p.umask = cfg.umask;
   p.env = cfg.env; p.ncpu = cfg.ncpu; p.ign_pipe = cfg.ign_pipe; p.ign_xfsz = cfg.ign_xfsz;
   p.in_granul = cfg.in_granul; p.out_granul = cfg.out_granul; p.copy_granul = cfg.copy_granul;
   p.world = make_world(files);
@@ -287,7 +288,7 @@ std::string case_to_text(const Case &c, const Verdict &v, uint64_t hash) {
     for (auto &f : r.faults) o << " fault " << f.call << " " << f.role << " " << f.k << " " << f.err << " " << f.partial << "\n";
     for (auto &e : r.sigs) o << " sig " << e.step << " " << e.sig << "\n";
     if (r.operand2) o << " operand2 1 " << r.op2_visible << " " << r.op2_grow_at << "\n";
-    if (r.nofile != 1024 || r.inherit_mask) o << " procenv " << r.nofile << " " << r.inherit_mask << "\n";
+    if (r.nofile != 1024 || r.inherit_mask || r.umask != 022) o << " procenv " << r.nofile << " " << r.inherit_mask << " " << r.umask << "\n";
     if (r.sched.stall_k) o << " stall " << r.sched.stall_task << " " << r.sched.stall_k << " " << r.sched.stall_len << "\n";
     o << " sched " << r.sched.policy << " " << r.sched.seed << " " << r.sched.param << " " << r.sched.spurious << " " << (int)r.sched.explicit_ << " " << r.sched.preempt << "\n";
     if (!r.sched.devs.empty()) { o << " devs"; for (auto &d : r.sched.devs) o << " " << d.first << ":" << d.second; o << "\n"; }
@@ -333,7 +334,7 @@ bool case_from_text(const std::string &text, Case *c, Verdict *v, uint64_t *hash
       else if (k == "filefrag") is >> cur->file_frag.mode >> cur->file_frag.param;
       else if (k == "fault") { sim::Fault f; is >> f.call >> f.role >> f.k >> f.err >> f.partial; cur->faults.push_back(f); }
       else if (k == "sig") { sim::SigEvent e; is >> e.step >> e.sig; cur->sigs.push_back(e); }
-      else if (k == "procenv") is >> cur->nofile >> cur->inherit_mask;
+      else if (k == "procenv") { is >> cur->nofile >> cur->inherit_mask; unsigned um; if (is >> um) cur->umask = um; }
       else if (k == "operand2") { int v = 0; is >> v; cur->operand2 = v != 0; long long vis = -1; int ga = 0; if (is >> vis >> ga) { cur->op2_visible = vis; cur->op2_grow_at = ga; } }
       else if (k == "stall") is >> cur->sched.stall_task >> cur->sched.stall_k >> cur->sched.stall_len;
       else if (k == "sched") { int ex; is >> cur->sched.policy >> cur->sched.seed >> cur->sched.param >> cur->sched.spurious >> ex; cur->sched.explicit_ = ex; uint32_t pr = 0; if (is >> pr) cur->sched.preempt = pr; }
